@@ -36,6 +36,8 @@ type Op struct {
 	Strict   bool     `json:"strict,omitempty"`
 	Alias    bool     `json:"alias,omitempty"`   // deprecated alias of the function
 	NoIter   bool     `json:"no_iter,omitempty"` // deprecated benchmark option (slice path of simple output)
+	NilCtx   bool     `json:"nil_ctx,omitempty"`    // WithMassive(nil)
+	NilOption bool    `json:"nil_option,omitempty"` // a nil Option among the options
 }
 
 func (o Op) String() string {
@@ -60,6 +62,9 @@ func (o Op) String() string {
 	}
 	if o.NoIter {
 		s += "/noiter"
+	}
+	if o.NilCtx {
+		s += "/nilctx"
 	}
 	if len(o.Branch) > 0 {
 		s += "/branch"
@@ -179,7 +184,14 @@ func buildNode(m *MNode) *gtree.Node {
 func opOptions(op Op, ctx context.Context, target string) []gtree.Option {
 	var opts []gtree.Option
 	if op.Massive {
-		opts = append(opts, gtree.WithMassive(ctx))
+		if op.NilCtx {
+			opts = append(opts, gtree.WithMassive(nil)) // documented: nil means context.Background()
+		} else {
+			opts = append(opts, gtree.WithMassive(ctx))
+		}
+	}
+	if op.NilOption {
+		opts = append(opts, nil) // nil options are skipped by the library
 	}
 	switch op.Encode {
 	case 1:
@@ -431,6 +443,18 @@ func execSim(op Op, env *Env) *Outcome {
 					out.CancelBeforeReturn = !out.Returned
 					if rdet != nil {
 						rdet.envCancel()
+					}
+					nb := 0
+					for _, ti := range run.Infos() {
+						if ti.State == "blocked" {
+							nb++
+						}
+					}
+					if nb > 0 {
+						out.Probes["cancel.while-tasks-blocked-in-an-operation"]++
+					}
+					if nb >= 10 {
+						out.Probes["cancel.while->=10-tasks-blocked"]++
 					}
 					cancel()
 				})
